@@ -55,7 +55,7 @@ def model_check(ctx, thorough):
     guards += [("MC_StrongTypedef", "MC_StrongTypedef_guard_%s.cfg" % w, "UnsignedLaw") for w in ("drop_carry", "mul_no_carry", "and_as_or")]
     guards += [("MC_StrongTypedef", "MC_StrongTypedef_guard_signed_and_unsigned.cfg", "SignedLaw")]
     for module, cfg, inv in guards:
-        r = vlib.tlc(module, cfg, workers=2)
+        r = vlib.tlc(module, cfg, workers=2, expect=inv)
         if inv not in r.invariant_violated:
             raise vlib.Infra("vacuity guard: %s did not violate %s" % (cfg, inv))
         ctx.extra.setdefault("vacuity_guards", []).append({"cfg": cfg, "violates": inv})
